@@ -15,9 +15,20 @@ C15  `_battery_manager.py`, `_pv_inverter_manager.py`, `_internal/_math.py`
   * the PV water-filling loop: skip test, share, allocation, sort direction;
   * the `is_close_to_zero` tolerance.
 
-Variables are identified by their *role* (parameter position, how they are initialised/updated), not by
-their name, so renaming a local does not break the extraction.  Anything that does not have the expected
-shape raises `Unsupported`; the checks of C14/C15 then go to the failing-input search.
+How the code is located (tolerant to behaviour-preserving rewrites, still read from the current source):
+  * variables are identified by their *role* (parameter position, what is returned / passed to the result
+    constructors, how they are accumulated), never by name; single-use locals are inlined;
+  * the await-free scheduling code of C14 is *symbolically executed* over the two facts it can test (request id
+    in `_processing_tasks` / in `_pending_requests`): inverted tests, guard clauses, early `continue`/`return`,
+    if/elif chains vs sequential ifs, `.get(..)`/walrus tests and private helper methods of the same class are
+    normalised away, the table records the effect per combination; lambda / nested def / partial callbacks alike;
+  * one iteration of the loops that inspect the finished `set_power` tasks is symbolically executed once per
+    outcome (returns / each exception kind): flags, try/except/else, `continue`, if/else are interpreted and
+    the table records whether the failed accumulators (both of them) or the succeeded one are updated;
+  * the branch that selects `PartialFailure` vs `Success` is recognised in either polarity.
+Statements with side effects that are not one of the recognised effects, partial effects (only one of two
+accumulators), or anything else outside this fragment raise `Unsupported`; the checks of C14/C15 then go to the
+failing-input search.
 """
 from __future__ import annotations
 
